@@ -1536,6 +1536,53 @@ def rule_P9(ctx, reader, obj, rid='P9'):
              'from an increasing integer index, not by iterating group member names')
     gv = _group_vars(reader)
     n = 0
+    # names bound (directly or through a local list) to member names obtained by iterating a
+    # group, and then used to index a group:  keys = [k for k in group if ...]; group[k]
+    tainted_lists = set()
+    tainted_vars = {}
+
+    def iter_of(node):
+        if isinstance(node, ast.For):
+            return node.target, node.iter
+        if isinstance(node, ast.comprehension):
+            return node.target, node.iter
+        return None, None
+    for _ in range(2):
+        for node in ast.walk(reader.node):
+            tgt, it = iter_of(node)
+            if it is None or not isinstance(tgt, ast.Name):
+                continue
+            e = it
+            while isinstance(e, ast.Call) and dotted(e.func) in ('list', 'enumerate', 'reversed',
+                                                                 'tuple') and e.args:
+                e = e.args[0]
+            from_group = _is_group(e, gv) or (
+                isinstance(e, ast.Call) and isinstance(e.func, ast.Attribute) and
+                e.func.attr == 'keys' and _is_group(e.func.value, gv)) or (
+                isinstance(e, ast.Name) and e.id in tainted_lists)
+            if from_group:
+                tainted_vars[tgt.id] = node
+        for st in walk_no_nested(reader.node):
+            if isinstance(st, ast.Assign) and isinstance(st.targets[0], ast.Name) and \
+                    isinstance(st.value, (ast.ListComp, ast.GeneratorExp)) and any(
+                        isinstance(g.target, ast.Name) and g.target.id in tainted_vars
+                        for g in st.value.generators) and isinstance(st.value.elt, ast.Name) \
+                    and st.value.elt.id in tainted_vars:
+                tainted_lists.add(st.targets[0].id)
+    used = []
+    for sub in ast.walk(reader.node):
+        if isinstance(sub, ast.Subscript) and _is_group(sub.value, gv) and \
+                isinstance(sub.slice, ast.Name) and sub.slice.id in tainted_vars:
+            used.append(sub)
+    if tainted_vars:
+        n += 1
+        ctx.ob(rid, '%s:members-indexed-by-iterated-names' % reader.qualname, not used,
+               reader.where(used[0]) if used else reader.where(),
+               'no member is looked up under a name obtained by iterating the group' if not used
+               else 'members are read as `%s` with names taken from iterating the group: the '
+               'order is lexicographic (..._10 before ..._2), so lists restored this way are '
+               'permuted against their sibling records once there are more than ten'
+               % unparse(used[0]))
     for lp in walk_no_nested(reader.node):
         it = None
         if isinstance(lp, ast.For):
@@ -1647,3 +1694,40 @@ def _is_memo_cache(prog, cname, attr):
                 if ra and ra[0] == attr:
                     return False
     return seen >= 2
+
+
+# ---------------------------------------------------------------------------
+# P10 restored, not re-derived
+# ---------------------------------------------------------------------------
+
+def rule_P10(ctx, cls, reader, obj, rid='P10'):
+    ctx.rule(rid, 'restored, not re-derived: an attribute that the observation interface reads '
+             'and that some non-constructor method modifies is restored from the file (or from '
+             'the rng argument), not re-derived by the reader from other quantities')
+    prog = ctx.program
+    res = resolver(prog)
+    reads = obs_reads(prog, cls)
+    mutable = _mutable_attrs(prog, cls.name)
+    gv = _group_vars(reader)
+    n = 0
+    for st in walk_no_nested(reader.node):
+        if not (isinstance(st, ast.Assign) and len(st.targets) == 1 and
+                isinstance(st.targets[0], ast.Attribute) and
+                isinstance(st.targets[0].value, ast.Name) and st.targets[0].value.id == obj):
+            continue
+        a = st.targets[0].attr
+        if a not in reads or a not in mutable or a == 'rng':
+            continue        # the generator is plumbed, not persisted, per object (F3/F4)
+        from_file = any((isinstance(x, ast.Subscript) and (_is_group(x.value, gv) or
+                                                            _is_attrs(x.value)))
+                        or (isinstance(x, ast.Name) and x.id == 'rng')
+                        or (isinstance(x, ast.Attribute) and x.attr == 'rng')
+                        for x in ast.walk(st.value))
+        is_none = isinstance(st.value, ast.Constant) and st.value.value is None
+        n += 1
+        ctx.ob(rid, '%s.read:%s' % (cls.name, a), from_file or is_none, reader.where(st),
+               'attribute %r is restored from the file' % a if from_file or is_none else
+               'attribute %r changes after construction and is read by the observation '
+               'interface, but read() re-derives it as `%s` instead of restoring it: a written '
+               'and read-back bound can behave differently' % (a, unparse(st.value)[:50]))
+    return n
